@@ -62,7 +62,7 @@ META.update({
                 note=TRUSTED + '; arbitrary::Unstructured::int_in_range returns a value of the range; IEEE-754 arithmetic reproduced in the declared float type'),
     'C14': dict(level='translation_validation', design_ref='DESIGN.md 4.3 R-ARB-INT, 5/C14',
                 technique='constant folding of the int_in_range endpoints in MIR vs the reference valid range; outcome table of arbitrary vs constructor table; other generator shapes: produced set over all draws of 8/16-bit types vs the valid set',
-                text='For all integer types x bound-kind combinations x spellings (literal, MIN/MAX, constants, shift/arithmetic expressions): the folded int_in_range endpoints equal the reference model\'s [lo, hi] exactly, and the drawn value reaches the canonical constructor unmodified; with a non-empty valid set some path returns a value (`Range::is_empty` guards fold on constant end points). Generators that are another function of one draw: for 8/16-bit draw types the set of stored values over all draws must be exactly the valid set; wider draw types are left undecided. '
+                text='For all integer types x bound-kind combinations x spellings (literal, MIN/MAX, constants, shift/arithmetic expressions): the folded int_in_range endpoints equal the reference model\'s [lo, hi] exactly, and the drawn value reaches the canonical constructor unmodified; with a non-empty valid set some path returns a value (`Range::is_empty` guards fold on constant end points). Generators that are another function of one draw, or of several small draws (sign + magnitude): the set of stored values over all assignments of the draws must be exactly the valid set (8/16-bit single draws, small multi-draw products); wider draw types are left undecided. '
                      'Surjectivity of int_in_range onto its range is the arbitrary crate\'s contract.',
                 note=TRUSTED + '; arbitrary::Unstructured::int_in_range is onto its range'),
     'C16': dict(level='translation_validation', design_ref='DESIGN.md 4.2 R-MSG, 5/C16',
